@@ -22,6 +22,7 @@ CONSTANTS
   ChanTO = 30
   MaxLife = 3600
   Denied <- MCNoDenied
+  Vetoable = {}
   Toks = {"none"}
   ResvTO = 30
   QuotaDenied = {}
